@@ -13,6 +13,7 @@ import (
 	"net"
 	"os"
 	"strings"
+	"sync"
 	"time"
 
 	"github.com/glowlabs-org/gca-backend/client"
@@ -24,12 +25,12 @@ func init() {
 	Register(&Property{
 		ID:             "C11",
 		Run:            runC11,
-		Rule:           "runs = a real client with 1-5 servers, each honest / down / flaky (refuse, reset, short read, corrupted reply) / rogue (arbitrary byte strings of 0-65535 bytes, every length class around the fixed header sizes, correctly signed replies with inconsistent location lengths, hundreds of entries, GCA-signed ban entries, stale timestamps, foreign device keys, foreign GCA signatures, finite stalls), all-banned and all-failed configurations, client restarts, 100-400 client ticks so that rounds overlap; oracles at every quiescent point: client mutex free, ban knowledge monotone within a GCA epoch (state and gcaServers.dat, also across restart), no dial to a server the client knows to be banned; after the adversarial phase new readings still produce datagrams and a new dial happens within 64 ticks; non-trivial = at least one rogue or flaky reply was processed and one round ended with every candidate failed; distinct = distinct decision signatures",
+		Rule:           "runs = a real client with 1-5 servers, each honest / down / flaky (refuse, reset, short read, corrupted reply) / rogue (arbitrary byte strings of 0-65535 bytes, every length class around the fixed header sizes, correctly signed replies with inconsistent location lengths, hundreds of entries, GCA-signed ban entries, stale timestamps, foreign device keys, foreign GCA signatures, finite stalls), all-banned and all-failed configurations, client restarts, 100-400 client ticks so that rounds overlap; oracles at every quiescent point: client mutex free, ban knowledge monotone within a GCA epoch (state and gcaServers.dat, also across restart), no selection of a server the client knows to be banned (judged at the selection, site csync.predial: overlapping rounds may learn of a ban between a selection and its dial); after the adversarial phase new readings still produce datagrams and a new dial happens within 64 ticks; non-trivial = at least one rogue or flaky reply was processed and one round ended with every candidate failed; distinct = distinct decision signatures",
 		Real:           []string{"client send loop, sync rounds (server selection, retry loop, merge, persistence, resend loop), reply parser, start-up server selection", "honest servers: real sync handler"},
 		Stub:           []string{"rogue servers (harness, holding the server's real key)", "TCP/UDP (simulated fabric)"},
 		Assumptions:    []string{"a stalled connection ends after a finite simulated time (the client has no read deadline of its own; an endless stall only blocks that one sync goroutine and, by design of the thread group, Close())"},
 		RequiredProbes: []string{"c11.rogue.short", "c11.rogue.signed-short", "c11.rogue.bans", "c11.rogue.many-entries", "c11.rogue.bad-loclen", "c11.all-failed-round", "c11.all-banned", "c11.restart", "c11.liveness-checked", "c11.flaky", "c11.rogue.offset"},
-		RequiredSites:  []string{"send.wake", "csync.wake", "csync.start"},
+		RequiredSites:  []string{"send.wake", "csync.wake", "csync.start", "csync.predial"},
 	})
 }
 
@@ -103,6 +104,27 @@ func runC11(m *Sim) {
 	rogueReplies := 0
 	flakyFaults := 0
 	adversarial := true
+	// The client never SELECTS a server it knows to be banned. The selection
+	// is made under the client's lock; right after it the round passes the
+	// site csync.predial, where the choice is judged against what the client
+	// knew at that moment. (Judging at the dial would be too strict: rounds
+	// overlap, and another round may learn of the ban between this round's
+	// selection and its dial.)
+	var selMu sync.Mutex
+	selectedBanned := map[int64]string{} // goroutine -> "" or the banned choice
+	w.S.YieldFn = func(node, site string, owner interface{}) {
+		if site != "csync.predial" || cl.C == nil || owner != interface{}(cl.C) {
+			return
+		}
+		st := cl.C.VerifState()
+		bad := ""
+		if e, ok := st.Servers[st.PrimaryServer]; ok && e.Banned {
+			bad = RoleOf(st.PrimaryServer)
+		}
+		selMu.Lock()
+		selectedBanned[goid()] = bad
+		selMu.Unlock()
+	}
 	w.DialPolicy = func(address string) DialAction {
 		dials++
 		w.Logf("dial %s adversarial=%v", address, adversarial)
@@ -111,14 +133,11 @@ func runC11(m *Sim) {
 			host = address[:i]
 		}
 		s := byLoc[host]
-		// The client never selects a server it knows to be banned.
-		if cl.C != nil {
-			st := cl.C.VerifState()
-			for k, e := range st.Servers {
-				if e.Location == host && e.Banned {
-					m.FailLater("C11.banned-choice", "dial", "the client dials %s (%s) although it knows that server to be banned", host, RoleOf(k))
-				}
-			}
+		selMu.Lock()
+		bad, judged := selectedBanned[goid()]
+		selMu.Unlock()
+		if judged && bad != "" {
+			m.FailLater("C11.banned-choice", "dial", "the client selected and dials %s (%s) although it knew that server to be banned when it made the choice", host, bad)
 		}
 		if s == nil {
 			return DialAction{Kind: 1}
